@@ -23,8 +23,11 @@
 use vstd::prelude::*;
 use vstd::std_specs::core::IndexSpecImpl;
 use core::ops::Index;
+use std::mem::size_of;
 
 verus! {
+
+global size_of usize == 8;
 
 // @@INCLUDE lazyint@@
 pub struct Func { pub id: Ghost<int> }
@@ -46,7 +49,19 @@ impl Val {
     pub fn into(self) -> (r: TailedEvalResult) ensures r == TailedEvalResult::Value(Ok(self)) { unimplemented!() }
 }
 pub struct Rt;
-impl Rt { #[verifier::external_body] pub fn clone(&self) -> (r: Rt) { unimplemented!() } }
+impl Rt {
+    #[verifier::external_body] pub fn clone(&self) -> (r: Rt) { unimplemented!() }
+    /// pre-flight allocation check (C09)
+    #[verifier::external_body] pub fn can_allocate(&self, n: usize) -> (r: RuntimeResult<()>) { unimplemented!() }
+}
+/// an argument expression of a native call, and the evaluator on it (deterministic)
+pub struct XExpr { pub id: Ghost<int> }
+pub uninterp spec fn ev(e: XExpr) -> RuntimeResult<EvaluatedValue>;
+#[verifier::external_body]
+pub fn eval(e: &XExpr, ns: &Ns, rt: &Rt) -> (r: RuntimeResult<EvaluatedValue>) ensures r == ev(*e) { unimplemented!() }
+#[verifier::external_body]
+pub fn vx_panic<X>() -> (r: X) requires false { unimplemented!() }
+macro_rules! unreachable { () => { vx_panic() } }
 pub struct Ns;
 pub struct ManagedXValue;
 impl ManagedXValue {
